@@ -21,7 +21,7 @@ def judge_piece(piece, context):
     """None if the piece is properly neutralised for the context, else a reason"""
     need = H.CONTEXT_HAZARDS[context]
     covered, amp, problems = H.coverage(piece.escapes)
-    missing = sorted(need - covered)
+    missing = H.missing_hazards(need, covered)
     if missing:
         if not piece.escapes:
             return f"reaches the output unescaped (needs {sorted(need)})"
